@@ -40,6 +40,21 @@ func main() {
 				if ce, ok := e.(*pc.CheckerError); ok {
 					fmt.Fprintf(os.Stderr, "pqlcheck: CHECKER-ERROR: %s\n", ce.Msg)
 					code = 2
+					if os.Args[1] == "check" {
+						// the tree could not even be loaded: nothing is shown to hold
+						for _, a := range os.Args[2:] {
+							if len(a) == 3 && a[0] == 'C' {
+								fmt.Printf("VIOLATION property=%s replay=(undecided: %s)\n", a, ce.Msg)
+								code = 1
+							}
+						}
+						if code == 2 {
+							for _, id := range pc.PropertyIDs() {
+								fmt.Printf("VIOLATION property=%s replay=(undecided: %s)\n", id, ce.Msg)
+							}
+							code = 1
+						}
+					}
 					return
 				}
 				panic(e)
@@ -124,8 +139,14 @@ func cmdCheck(args []string) int {
 			return 2
 		}
 		run := pc.NewRun(id, *tier)
-		for _, rule := range prop.Rules {
-			rule(prog, run)
+		// a rule that cannot be applied (an anchor is gone, the tree does not type-check) decides nothing: the
+		// property is reported as not shown to hold, never as held
+		if msg := runRules(prop, prog, run); msg != "" {
+			fmt.Fprintf(os.Stderr, "pqlcheck: CHECKER-ERROR: %s\n", msg)
+			fmt.Printf("== %s (%s): undecided\n  violation %s/undecided %s: the check cannot be applied to this tree (%s); the property is not shown to hold\n", id, *tier, id, id, msg)
+			fmt.Printf("VIOLATION property=%s replay=(undecided: %s)\n", id, msg)
+			exit = 1
+			continue
 		}
 		extra := map[string]any{}
 		selfOK := true
@@ -155,10 +176,12 @@ func cmdCheck(args []string) int {
 		if len(out.FloorFails) > 0 {
 			for _, f := range out.FloorFails {
 				fmt.Fprintf(os.Stderr, "pqlcheck: CHECKER-ERROR: %s\n", f)
+				fmt.Printf("  violation %s/undecided %s: a rule found fewer instances than it must (%s): the code it decides about is gone or has changed shape; the property is not shown to hold\n", id, id, f)
 			}
-			if exit == 0 {
-				exit = 2
+			if len(out.Violations) == 0 {
+				fmt.Printf("VIOLATION property=%s replay=(undecided: vacuity guard)\n", id)
 			}
+			exit = 1
 		}
 		if !selfOK {
 			fmt.Fprintf(os.Stderr, "pqlcheck: CHECKER-ERROR: selftest of %s failed (a seeded break was not detected or a fixture was not flagged)\n", id)
@@ -181,6 +204,23 @@ func cmdCheck(args []string) int {
 		}
 	}
 	return exit
+}
+
+// runRules runs the rules of one property; a checker error (missing anchor, unsupported shape) is returned as text.
+func runRules(prop *pc.Property, prog *pc.Program, run *pc.Run) (msg string) {
+	defer func() {
+		if e := recover(); e != nil {
+			if ce, ok := e.(*pc.CheckerError); ok {
+				msg = ce.Msg
+				return
+			}
+			panic(e)
+		}
+	}()
+	for _, rule := range prop.Rules {
+		rule(prog, run)
+	}
+	return ""
 }
 
 func cmdExplain(args []string) int {
